@@ -88,7 +88,44 @@ def gen_cases(rng, tier):
 	for i in range(n // 2):
 		addr = bytearray(rand_bytes(rng, 24))
 		cases.append({'kind': 'toalias', 'addr': bytes(addr).hex()})
+	# ids filled in by the transaction factory (symbol/TransactionFactory.py): namespace registration (root / child, with and without a
+	# parent_id given for a root, which the encoding ignores) and mosaic definition, top-level and embedded, both shipped networks
+	alphabet = 'abcdefghijklmnopqrstuvwxyz0123456789'
+	for i in range(max(24, n // 3)):
+		name = rng.choice(alphabet) + ''.join(rng.choice(alphabet + '_-') for _ in range(rng.randrange(0, 9)))
+		registration = ['root', 'child', 'root-with-parent', 'default-with-parent', 'default'][i % 5]
+		parent = rng.choice([1, 2**64 - 1, 2**63, rng.randrange(1, 2**64)])
+		cases.append({
+			'kind': 'txnamespace', 'name': name, 'registration': registration, 'parent': parent,
+			'embedded': bool(i // 5 % 2), 'network': ['testnet', 'mainnet'][i // 10 % 2]})
+	for i in range(max(12, n // 4)):
+		cases.append({
+			'kind': 'txmosaic', 'signer': rand_bytes(rng, 32).hex(), 'nonce': rng.choice([0, 1, 2**32 - 1, 2**31, rng.randrange(2**32)]),
+			'embedded': bool(i % 2), 'network': ['testnet', 'mainnet'][i // 2 % 2]})
 	return cases
+
+
+def tx_descriptor(case):
+	if case['kind'] == 'txnamespace':
+		descriptor = {'type': 'namespace_registration_transaction_v1', 'name': case['name']}
+		registration = case['registration']
+		if registration in ('root', 'root-with-parent'):
+			descriptor['registration_type'] = 'root'
+		if registration == 'child':
+			descriptor['registration_type'] = 'child'
+		if registration in ('child', 'root-with-parent', 'default-with-parent'):
+			descriptor['parent_id'] = case['parent']
+		if registration != 'child':
+			descriptor['duration'] = 123
+		return descriptor
+	return {'type': 'mosaic_definition_transaction_v1', 'nonce': case['nonce'], 'signer_public_key': case['signer'].upper()}
+
+
+def tx_owner_address(case):
+	from symbolchain.CryptoTypes import PublicKey
+	from symbolchain.symbol.Network import Network
+	network = {'testnet': Network.TESTNET, 'mainnet': Network.MAINNET}[case['network']]
+	return network.public_key_to_address(PublicKey(bytes.fromhex(case['signer']))).bytes
 
 
 # --- implementation
@@ -126,6 +163,12 @@ def impl(case):
 		if kind == 'toalias':
 			back = Address(bytes.fromhex(case['addr'])).to_namespace_id()
 			return 'none' if back is None else str(back.value)
+		if kind in ('txnamespace', 'txmosaic'):
+			from symbolchain.facade.SymbolFacade import SymbolFacade
+			factory = SymbolFacade(case['network']).transaction_factory
+			transaction = (factory.create_embedded if case['embedded'] else factory.create)(tx_descriptor(case))
+			decoded = type(transaction).deserialize(transaction.serialize())
+			return f'{transaction.id.value}|{decoded.id.value}'
 	except Exception as ex:  # pylint: disable=broad-except
 		return f'crash:{type(ex).__name__}'
 	raise ValueError(kind)
@@ -155,6 +198,11 @@ def model(case):
 		return f'render_alias {zlit(case["id"])} {zlit(case["net"])}'
 	if kind == 'toalias':
 		return f'render_opt (address_to_namespace_id {blit(bytes.fromhex(case["addr"]))})'
+	if kind == 'txnamespace':
+		parent = case['parent'] if case['registration'] == 'child' else 0
+		return f'twice (Z_to_string (generate_namespace_id sha3_256 {blit(case["name"].encode("utf8"))} {zlit(parent)}))'
+	if kind == 'txmosaic':
+		return f'twice (Z_to_string (generate_mosaic_id sha3_256 {blit(tx_owner_address(case))} {zlit(case["nonce"])}))'
 	raise ValueError(kind)
 
 
@@ -167,6 +215,7 @@ Definition render_path H (fqn : list Z) : string :=
   | None => "reject|reject"
   | Some p => "ok:" ++ commas p ++ "|" ++ match generate_mosaic_alias_id H fqn with Some a => Z_to_string a | None => "reject" end
   end.
+Definition twice (s : string) : string := s ++ "|" ++ s.
 Definition render_alias (id net : Z) : string :=
   let a := address_from_namespace_id id net in to_hex a ++ "|" ++ render_opt (address_to_namespace_id a).
 '''
@@ -218,6 +267,19 @@ def oracle(case, out):
 		addr = bytes.fromhex(case['addr'])
 		expected = str(int.from_bytes(addr[1:9], 'little')) if addr[0] & 1 else 'none'
 		return None if out == expected else f'address {case["addr"]}: to_namespace_id {out}, expected {expected}'
+	if kind == 'txnamespace':
+		# the parent of a root registration is 0 whatever else the descriptor says (that is what the encoding carries)
+		parent = case['parent'] if case['registration'] == 'child' else 0
+		expected = int.from_bytes(sha3(parent.to_bytes(8, 'little') + case['name'].encode('utf8'))[:8], 'little') | F63
+		return None if out == f'{expected}|{expected}' else \
+			f'{case["registration"]} registration of {case["name"]!r}: created/decoded id {out} != hash of parent id then name ({expected})'
+	if kind == 'txmosaic':
+		identifier = {'testnet': 0x98, 'mainnet': 0x68}[case['network']]
+		part = hashlib.new('ripemd160', sha3(bytes.fromhex(case['signer']))).digest()
+		version = bytes([identifier]) + part
+		address = version + sha3(version)[:3]
+		expected = int.from_bytes(sha3(case['nonce'].to_bytes(4, 'little') + address)[:8], 'little') & M63
+		return None if out == f'{expected}|{expected}' else f'mosaic definition: created/decoded id {out} != hash of nonce then owner address ({expected})'
 	raise ValueError(kind)
 
 
